@@ -9,19 +9,20 @@ import Bmc.Spec.Prim
 namespace Bmc.Spec
 open Bmc
 
-/-- the three published versions; the response begins with major version, minor version, parameter revision
-    (01 for v1.0, 02 for v1.1 and v1.5) -/
+/-- the three published versions; the response begins with major version, minor version, parameter revision. The
+    published values of the parameter revision are 01 for v1.0 and 02 for v1.1 and v1.5, but it is a field of its own —
+    a BMC may carry any value there, and it must not influence how the rest is read — so it is a free byte here -/
 inductive DcmiVersion where
-  | v10 | v11 | v15
+  | v10 (rev : UInt8) | v11 (rev : UInt8) | v15 (rev : UInt8)
   deriving Repr, DecidableEq
 
 def DcmiVersion.header : DcmiVersion → Bytes
-  | .v10 => [1, 0, 1]
-  | .v11 => [1, 1, 2]
-  | .v15 => [1, 5, 2]
+  | .v10 rev => [1, 0, rev]
+  | .v11 rev => [1, 1, rev]
+  | .v15 rev => [1, 5, rev]
 
 def DcmiVersion.isV10 : DcmiVersion → Bool
-  | .v10 => true
+  | .v10 _ => true
   | _ => false
 
 /-- Parameter 1, Supported DCMI Capabilities — three bytes.
